@@ -107,15 +107,16 @@ theorem nodup_map_of_nodup_map {α β γ : Type} (f : α → β) (g : α → γ)
 -- the changing registry's loop body and `application.apply`'s touch, against the cores the
 -- translator re-extracts
 
-theorem selChanging_bool (e rn re hi ci cm hd m : Bool) :
-    (!e && (((rn || re) && !(hi && !ci) && !(hi && cm && !hd) && !(rn && !hi && cm)) && m)) =
+theorem selChanging_bool (e rn re hi ci cm hd nc m : Bool) :
+    (!e && (((rn || re) && !(hi && !ci) && !(hi && cm && !hd) && !(rn && !hi && nc && cm)) && m)) =
       selChangingCore { excluded := e, reasonNone := rn, reasonEq := re, hInitial := hi, cInitial := ci,
-                        cDeleted := cm, hDeleted := hd, matched := m } := by
-  cases e <;> cases rn <;> cases re <;> cases hi <;> cases ci <;> cases cm <;> cases hd <;> cases m <;> rfl
+                        cDeleted := cm, hDeleted := hd, needsChange := nc, matched := m } := by
+  cases e <;> cases rn <;> cases re <;> cases hi <;> cases ci <;> cases cm <;> cases hd <;> cases nc <;>
+    cases m <;> rfl
 
 theorem selChanging_eq_core {V : Type} [PyVal V] (c : Cause V) (ex : List String) (h : Handler V) :
     selChanging c ex h = selChangingCore (chgAtoms c ex h) :=
-  selChanging_bool _ _ _ _ _ _ _ _
+  selChanging_bool _ _ _ _ _ _ _ _ _
 
 /-- with an uninterrupted sleep, `apply` touches iff there is a delay and no object-changing patch -/
 theorem applyTouch_eq_touchCore (delay0 nonempty changed : Bool) (h : delay0 = true → nonempty = true) :
@@ -211,13 +212,22 @@ def holdsCode (crit : VCrit V) (x : Option V) : Bool :=
   (crit.isUnset && x.isSome) || (crit.isPresent && x.isSome) || (crit.isAbsent && x.isNone) ||
     (crit.isCallable && crit.call x) || crit.pyEq x
 
+/-- on a changing cause: the current state, and -- unless the cause has no old state and the handler is
+    not an update handler (/repo bd6cd41) -- the old state as well -/
 theorem fvCore_changing (h : Handler V) (c : Cause V) (hc : c.changing = true) :
     matchesFieldValues h c =
-      (!hasField h || (holdsCode h.value (c.new (path h)) || holdsCode h.value (c.old (path h)))) := by
-  cases hv : h.value <;> cases hf : hasField h <;>
-    simp [matchesFieldValues, fvCore, fvAtoms, values, valuesChanging, Cause.get, holdsCode, hc, hv, hf,
+      (!hasField h || (holdsCode h.value (c.new (path h)) ||
+        (!currentOnlyCore (curAtoms h c) && holdsCode h.value (c.old (path h))))) := by
+  cases hcur : currentOnlyCore (curAtoms h c) <;> cases hv : h.value <;> cases hf : hasField h <;>
+    simp [matchesFieldValues, fvCore, fvAtoms, values, valuesChanging, Cause.get, holdsCode, hc, hv, hf, hcur,
       VCrit.isUnset, VCrit.isPresent, VCrit.isAbsent, VCrit.isCallable, VCrit.call, VCrit.pyEq,
       Bool.or_assoc, Bool.or_left_comm, Bool.or_comm]
+
+/-- the repaired mechanism, spelled out: no old state and not an update handler ⇒ the current state only -/
+theorem fvCore_creation (h : Handler V) (c : Cause V) (hc : c.changing = true) (hno : c.noOld = true)
+    (hnu : needsChangeAttr h = false) :
+    matchesFieldValues h c = (!hasField h || holdsCode h.value (c.new (path h))) := by
+  rw [fvCore_changing h c hc]; simp [currentOnlyCore, curAtoms, hno, hnu]
 
 theorem fvCore_other (h : Handler V) (c : Cause V) (hc : c.changing = false) :
     matchesFieldValues h c = (!hasField h || holdsCode h.value (c.body (path h))) := by
